@@ -121,7 +121,7 @@ def _compact(wi, fi, cnt):
         else:
             outcomes.add(o)
     return (wi, fi, cnt.states, cnt.transitions, cnt.traces, cnt.fams, outcomes, cnt.nontrivial_traces,
-            {k: (v[0], v[1][0], v[1][1]) for k, v in cnt.problems.items()})
+            {k: (v[0], v[1][0], v[1][1]) for k, v in cnt.problems.items()}, cnt.sample_path)
 
 
 # ------------------------------------------------------------------------------------------------
@@ -176,8 +176,11 @@ def run(ctx):
     fams = {}
     per_walk = {}
     skipped_amb = 0
-    for (wi, fi, states, trans, traces, fm, outcomes, nontriv, problems) in res:
+    histories = {}
+    for (wi, fi, states, trans, traces, fm, outcomes, nontriv, problems, spath) in res:
         spec, depth, ext = plan[wi]
+        if spath and len(spath) >= len(histories.get(wi, [])):
+            histories[wi] = spath
         out.states += states
         out.transitions += trans
         out.traces += traces
@@ -204,7 +207,8 @@ def run(ctx):
     for wi in sorted(per_walk)[:3] + sorted(per_walk)[-2:]:
         spec, depth, ext = plan[wi]
         out.sample({"part": "A", "seed_tensor": spec, "depth": depth, "extended_index_alphabet": ext,
-                    "states": per_walk[wi][0], "transitions": per_walk[wi][1]}, limit=5)
+                    "states": per_walk[wi][0], "transitions": per_walk[wi][1],
+                    "one_checked_history": [K.describe(e) for e in histories.get(wi, [])]}, limit=5)
     ctx.log("part A done: states=%d transitions=%d traces=%d problems=%d"
             % (out.states, out.transitions, out.traces, len(found)))
 
